@@ -269,6 +269,9 @@ def run_case(case):
     fp = f't={t}'
     if t == 'mvdr':
         phin = pd(rng, F, D, case['cond'])
+        lvl = [1.0, 1e-16, 1e12, 1e-22][case['seed'] % 4]       # absolute level of the noise field (the vector does not depend on it)
+        phin = phin * lvl
+        fp += f';level={lvl:g}'
         st = case['stack']
         fp += f';stack={st}'
         if st == 'single':
@@ -336,6 +339,13 @@ def run_case(case):
         phix = pd(rng, F, D, 10.0)
         a, sigma, r1 = _rank1(rng, F, D)
         phix = r1 + 0.01 * phix
+        if (case['seed'] // 4) % 2:
+            # exactly rank-one weak target whose steering vector vanishes at one sensor in every bin: that candidate column is
+            # exactly zero (SNR 0 / 0 -> 0), every real candidate has an output SNR below one
+            dead = int(rng.integers(D))
+            a[:, dead] = 0
+            phix = 1e-3 * sigma[:, None, None] * np.einsum('fd,fe->fde', a, a.conj())
+            fp += ';dead_sensor_weak_target'
         # joint scale of both PSDs (the criterion is a ratio): ordinary, very quiet, very loud recordings
         js = [1.0, 1e-18, 1e12, 1e-24][case['seed'] % 4]
         phin, phix = phin * js, phix * js
@@ -402,6 +412,12 @@ def run_case(case):
             px, pn = px[None], pn[None]
         w, exc = _call(bf.get_gev_vector, px, pn, use_eig=case['use_eig'])
         if w is not None:
+            keep = w.copy()
+            # another problem of the same size is solved before the first result is used (one beamformer per speaker)
+            _call(bf.get_gev_vector, px * 0.5 + np.swapaxes(pn, -1, -2).conj(), pn + px, use_eig=case['use_eig'])
+            if not np.array_equal(keep, w, equal_nan=True):
+                w, exc = None, 'ResultOverwritten'
+        if w is not None:
             w = w.reshape(F, D)
         others = []
         for name in ('mvdr_souden', 'wmwf', 'pca', 'rank1_gev+mvdr_souden'):
@@ -435,6 +451,13 @@ def run_case(case):
         px = phi
         for _ in range(case['lead']):
             px = px[None]
+        if case['seed'] % 3 == 0 and F >= 2:
+            # two genuine leading axes (2, F', D, D) handed over in Fortran order
+            Fh = F // 2
+            px = np.asfortranarray(phi[:2 * Fh].reshape(2, Fh, D, D))
+            phi = phi[:2 * Fh]
+            F = 2 * Fh
+            fp += ';two_leads_F'
         kw = {} if case['scaling'] is None else dict(scaling=case['scaling'])
         w, exc = _call(bf.get_pca_vector, px, **kw)
         if w is not None:
@@ -527,6 +550,13 @@ def run_case(case):
         phix = pd(rng, L * F, D, 1e2).reshape(L, F, D, D)
         a = cvec(rng, L, F, D)
         w0 = cvec(rng, L, F, D)
+        if case['seed'] % 2 and L > 1:
+            # the stacked problems come from recordings at very different levels (int16-scaled next to a quiet float one)
+            lv = 10.0 ** rng.choice([-9, 9, -12, 0], size=L)
+            lv[0], lv[-1] = 1e9, 1e-9
+            phin = phin * lv[:, None, None, None]
+            phix = phix * lv[:, None, None, None]
+            fp += ';levels'
         f = {'souden': lambda i: bf.get_mvdr_vector_souden(phix[i], phin[i], ref_channel=1),
              'souden_auto': lambda i: bf.get_mvdr_vector_souden(phix[i], phin[i]),
              'wmwf': lambda i: bf.get_wmwf_vector(phix[i], phin[i], reference_channel=0),
@@ -671,6 +701,13 @@ def _name(case, rng):
         kw['atf_kwargs'] = dict(scaling='trace')
     if case['seed'] % 2:
         phix, phin = flay(phix), flay(phin)
+    if case['seed'] % 3 == 0 and p['ok']:
+        # block-online use: the same PSD buffers held other statistics during an earlier call of the same beamformer
+        bx, bn = phix + pd(rng, F, D, 1e2), phin * 2.0 + pd(rng, F, D, 1e2)
+        _call(bw.get_bf_vector, case['name'], bx, bn, **dict(kw))
+        bx[...] = phix
+        bn[...] = phin
+        phix, phin = bx, bn
     direct, e1 = _call(bw.get_bf_vector, case['name'], phix, phin, **dict(kw))
     composed, e2 = (None, '')
     if p['ok']:
